@@ -18,7 +18,7 @@ RULE = ("kinds: exact (4-/8-tuples of 64-bit integers run through the library's 
         "log(exp q)=q for |v| in (0,pi), 1e-6), dual (associativity, 8x8 matrix form, conjugate, norm defined, (1,0) for "
         "unit dual quaternions built from rigid motions), symbolic (the same identities executed once on SymPy symbols and "
         "expanded to 0; supplementary). Non-trivial: all components non-zero and pairwise distinct.")
-RULE = RULE + probes.RULE_TEXT + (probes.AUG_TEXT if PROPERTY_ID in probes.AUG_PROPS else "") + probes.VARIANT_TEXT
+RULE = RULE + probes.RULE_TEXT + (probes.AUG_TEXT if PROPERTY_ID in probes.AUG_PROPS else "") + probes.VARIANT_TEXT + probes.OWN_TEXT
 ASSUMPTIONS = ["Python big-integer arithmetic is exact; a wrong polynomial identity of degree <= 4 survives one random 64-bit draw with probability < 2^-60 (Schwartz-Zippel)",
                "reference Hamilton product table in pbt/refs.py", "float identities: 1e-9 relative to the product of operand norms; exp/log 1e-6 relative to |q|"]
 
@@ -92,10 +92,10 @@ def gen_symbolic(tier):
 
 
 def check_case(case):
-    if case.get("kind") in ("hist", "aug", "variant"):
+    if case.get("kind") in ("hist", "aug", "variant", "own"):
         return probes.run(case, PROPERTY_ID)
     return {"exact": _exact, "float": _float, "power": _power, "unit3": _unit3, "rates": _rates, "explog": _explog,
-            "dual": _dual, "dual_exact": _dual_exact, "symbolic": _symbolic, "qdtype": _qdtype}[case["kind"]](case)
+            "dual": _dual, "dual_exact": _dual_exact, "symbolic": _symbolic, "qdtype": _qdtype, "bigint": _bigint}[case["kind"]](case)
 
 
 QDTYPES = ["float32", "int64", "int32", "int16", "int8", "uint8", "uint16"]
@@ -112,6 +112,51 @@ def gen_qdtype(tier):
         for p, q in (([1, 2, 3, 4], [2, 1, 4, 3]), ([1, -2, 3, -4], [-2, 5, 1, 3]), ([0, 7, 0, 2], [3, 0, 6, 1]), ([5, 9, 9, 8], [9, 7, 8, 9])):
             for n in (2, -1, 3):
                 yield {"kind": "qdtype", "dtype": dt, "p": p, "q": q, "n": n}
+
+
+def gen_bigint(tier):
+    for p, q in (([30000, -20000, 10000, 40000], [12345, 6789, -23456, 9876]), ([99999, 1, -99999, 2], [3, -77777, 5, 88888]), ([7, 0, 0, 0], [0, 50000, 0, 0])):
+        for n in (-6, -3, 2, 4, 5, 6):
+            for form in ("list", "tuple", "array"):
+                yield {"kind": "bigint", "p": p, "q": q, "n": n, "form": form}
+
+
+def s_bigint():
+    comp = st.integers(-100000, 100000)
+    return st.fixed_dictionaries({"kind": st.just("bigint"), "p": st.lists(comp, min_size=4, max_size=4), "q": st.lists(comp, min_size=4, max_size=4),
+                                  "n": st.integers(-6, 6), "form": st.sampled_from(["list", "tuple", "array"])})
+
+
+def _bigint(case):
+    """'for all real components': whole numbers given as Python ints (lists / tuples) of ordinary engineering size - the
+    products of six of them exceed 64-bit integers, not floating point"""
+    c = Checker("bigint", form=case["form"], n=case["n"])
+    b = L.base
+    pf, qf = np.array(case["p"], dtype=float), np.array(case["q"], dtype=float)
+    mk = {"list": lambda v: [int(x) for x in v], "tuple": lambda v: tuple(int(x) for x in v), "array": lambda v: np.array([int(x) for x in v])}[case["form"]]
+    n = case["n"]
+
+    def pw(v, k):
+        out = np.array([1.0, 0, 0, 0])
+        for _ in range(abs(k)):
+            out = refs.qmul(out, v)
+        return refs.qconj(out) if k < 0 else out
+    npq = max(1.0, float(np.linalg.norm(pf))), max(1.0, float(np.linalg.norm(qf)))
+    for site, f, want, sc in (("qpow", lambda: b.qpow(mk(case["p"]), n), pw(pf, n), npq[0] ** abs(n)),
+                              ("qqmul", lambda: b.qqmul(mk(case["p"]), mk(case["q"])), refs.qmul(pf, qf), npq[0] * npq[1]),
+                              ("matrix", lambda: np.asarray(b.matrix(mk(case["p"])), dtype=float) @ qf, refs.qmul(pf, qf), npq[0] * npq[1]),
+                              ("inner", lambda: b.inner(mk(case["p"]), mk(case["q"])), float(np.dot(pf, qf)), npq[0] * npq[1]),
+                              ("Quaternion**n", lambda: (L.Quaternion(mk(case["p"])) ** n).vec, pw(pf, n), npq[0] ** abs(n)),
+                              ("Quaternion.mul", lambda: (L.Quaternion(mk(case["p"])) * L.Quaternion(mk(case["q"]))).vec, refs.qmul(pf, qf), npq[0] * npq[1])):
+        ok, got = c.lib(site, f)
+        if ok:
+            try:
+                g = np.asarray(got, dtype=float)
+            except Exception:  # noqa
+                c.fail(site + "/numeric", "%s returned %r" % (site, got))
+                continue
+            c.eq(site + "/value", g, want, 1e-9, sc)
+    return c.out
 
 
 def _qdtype(case):
@@ -428,6 +473,21 @@ def _dual(case):
             nr = float(np.linalg.norm(a[:4]))
             c.eq("norm/real", N[0], nr, 1e-9, nr)
             c.eq("norm/dual", N[1], float(np.dot(a[:4], a[4:])) / nr, 1e-9, max(float(np.linalg.norm(a[4:])), 1e-300))
+    # a dual quaternion is mutable through its public parts: after every method was used once, replace the parts and
+    # ask again - the answers must be those of a new object built from the new parts (nothing remembered)
+    D = _dq(case["a"])
+    for nm_, f_ in (("matrix", lambda d_: d_.matrix()), ("vec", lambda d_: d_.vec), ("norm", lambda d_: d_.norm()), ("conj", lambda d_: d_.conj().vec)):
+        c.lib("history/prime/" + nm_, f_, D)
+    D.real = L.Quaternion(b_[:4].copy())
+    D.dual = L.Quaternion(cc[4:].copy())
+    F = L.DualQuaternion(L.Quaternion(b_[:4].copy()), L.Quaternion(cc[4:].copy()))
+    for nm_, f_ in (("matrix", lambda d_: d_.matrix()), ("vec", lambda d_: d_.vec), ("norm", lambda d_: d_.norm()), ("conj", lambda d_: d_.conj().vec),
+                    ("mul", lambda d_: (d_ * B).vec)):
+        ok1, r1 = c.lib("history/" + nm_, f_, D)
+        ok2, r2 = c.lib("history/fresh/" + nm_, f_, F)
+        if ok1 and ok2:
+            c.true("history/%s/stale" % nm_, probes.same(probes.snap(r1), probes.snap(r2), 1e-12),
+                   "DualQuaternion.%s after its parts were replaced differs from the same call on a new object with those parts" % nm_)
     # unit dual quaternion from a rigid motion
     T = refs.pose3_of(case["T"])
     sc = max(1.0, float(np.max(np.abs(T[:3, 3]))))
@@ -535,7 +595,7 @@ def _distinct_nonzero(v):
 
 
 def classify(case):
-    if case.get("kind") in ("hist", "aug", "variant"):
+    if case.get("kind") in ("hist", "aug", "variant", "own"):
         return probes.classify(case)
     k = case["kind"]
     lab = {"kind:" + k: True}
@@ -550,6 +610,8 @@ def classify(case):
         lab["nontrivial"] = _distinct_nonzero(case["p"]) and _distinct_nonzero(case["q"])
     elif k == "rates":
         lab["nontrivial"] = _distinct_nonzero(case["q"]) and _distinct_nonzero(case["w"])
+    elif k == "bigint":
+        lab["nontrivial"] = True
     elif k == "qdtype":
         lab["nontrivial"] = True
         lab["dtype:" + case["dtype"]] = True
@@ -573,6 +635,8 @@ def subchecks(tier):
         Sub("explog", strategy=s_explog(), n=(500, 10000), shards=(2, 8)),
         Sub("dual", strategy=s_dual(), n=(400, 8000), shards=(4, 8)),
         Sub("element_types", gen=gen_qdtype, shards=(2, 4)),
+        Sub("whole_numbers", gen=gen_bigint, shards=(1, 2)),
+        Sub("whole_number_values", strategy=s_bigint(), n=(100, 2000), shards=(2, 4)),
         Sub("element_type_values", strategy=s_qdtype(), n=(150, 3000), shards=(2, 8)),
         *probes.subs(PROPERTY_ID),
     ]
